@@ -369,7 +369,19 @@ package fiber
 // sound in this engine: any(v) of a value whose type parameter has a union constraint is boxed with a fixed tag of its own, so every
 // `case T:` branch of the type switch is unreachable in the VC and only the default branch is examined; the clause was
 // "proved" with `utils.UnsafeBytes(str)` planted in the []byte case. Hence still assumed.)
-//@ func genericParseType assumed pure
+// Session 5: the boxing of a type-parameter value now has an unconstrained dynamic type (every `case T:` is examined), so
+// the contract is CHECKED against the generic body: no effect on the heap and - the C06 part - no zero-copy conversion:
+// the []byte case hands out a copy of its own ([]byte(str)), never a view of str's bytes.
+// What stays ASSUMED are the helpers below it (parse with strconv, then hand the number to a closure that only calls
+// assertValueType; a failed type assertion over the type parameter panics): no effect on the heap.
+//@ func assertValueType assumed pure
+//@ func genericParseInt assumed pure
+//@ func genericParseUint assumed pure
+//@ func genericParseFloat assumed pure
+//@ func genericParseBool assumed pure
+//@ func genericParseType
+//@   pure
+//@   ensures [C06] no-zero-copy-conversion: !called(@utils.UnsafeBytes) && !called(@utils.UnsafeString)
 
 // Query(key): Query[string] (assumed contract of the generic function in /verif/contracts/deps/mw_C15.spec).
 //@ func (*DefaultCtx).Query
